@@ -100,8 +100,12 @@ class ModuleInfo:
         self.src = src
         self.tree = _normalise(ast.parse(src, filename=relpath))
         if os.environ.get("VERIF_NO_RESTORE_LOCALS") != "1":
-            from . import reflocals
-            self.renamed_locals = reflocals.restore(relpath, self.tree, hashlib.sha256(src.encode()).hexdigest()[:16])
+            from . import derefactor, reflocals
+            dg = hashlib.sha256(src.encode()).hexdigest()[:16]
+            ref = reflocals.reference().get(relpath)
+            if ref and ref.get("__digest__") != dg:
+                self.derefactored = derefactor.apply(relpath, self.tree, ref)
+            self.renamed_locals = reflocals.restore(relpath, self.tree, dg)
         name = relpath[:-3].replace("/", ".")
         if name.endswith(".__init__"):
             name = name[: -len(".__init__")]
